@@ -7,7 +7,11 @@ coq/Properties/C07.  Ties checked on every run: translator (fail closed) + re-pr
 the reported in/out sets are the fixed point of the generated equations on the implementation's graph, they satisfy
 the soundness inclusions for Python-side reads / binds, annotations are what the node solution implies.
 Oracle: CPython variable events (pyrt.run_var_events): every variable whose value is read later before being
-overwritten must be in in_/out and LIVE_VARS_IN/OUT at every statement-instance boundary.
+overwritten must be in in_/out and LIVE_VARS_IN/OUT at every statement-instance boundary -- of the top function and,
+activation by activation, of every nested function against its own graph (reads later in the same activation by the
+function, by functions nested in it, or by local functions of the enclosing functions whose definition reaches its
+definition: flow.nested_activation_views; the Coq rows of a nested function carry those functions' free reads in
+n_cread, so lv_sound demands them at every node that performs a call).
 Shared machinery: tools/export/flow.py."""
 import os
 
